@@ -287,6 +287,7 @@ def run_property(prop, tier, seed, only=None, verbose=True):
         known_hits = []
         inconclusive = []
         harness_errors = []
+        hunted = []
         samples = []
         functions = set()
         per_harness = []
@@ -337,6 +338,9 @@ def run_property(prop, tier, seed, only=None, verbose=True):
                         row["state"] = "spurious"
                 elif r["state"] == "error":
                     harness_errors.append({"harness": s.name, "fn": fn, "why": r["message"][:800]})
+                elif s.meta.get("hunt") and r["state"] == "unknown":
+                    hunted.append(s.name)
+                    row["state"] = "hunt-only (no counterexample found, no proof claimed)"
                 else:
                     inconclusive.append({"harness": s.name, "fn": fn,
                                          "why": "%s: %s" % (r["state"], r["message"][:300])})
@@ -376,6 +380,7 @@ def run_property(prop, tier, seed, only=None, verbose=True):
                 "obligations": obligations,
                 "discharged": discharged,
                 "inconclusive": inconclusive,
+                "bug_hunting_only": hunted,
                 "harness_errors": harness_errors,
                 "harnesses": len(specs),
                 "exhaustive": False,
